@@ -316,8 +316,8 @@ PROPS['C19'] = {
     ],
 }
 PROPS['C20'] = {
-    'units': ['contexts_a', 'contexts_b'],
-    'functions': ['parse_terms.rs::parse_term', 'parse_goals.rs::get_left_and_right', 's_linked_list.rs::parse_linked_list', 'parse_terms.rs::parse_arguments'],
+    'units': ['contexts_a', 'contexts_b', 'contexts_c'],
+    'functions': ['infix.rs::check_arithmetic_infix', 'parse_terms.rs::parse_term', 'parse_goals.rs::get_left_and_right', 's_linked_list.rs::parse_linked_list', 'parse_terms.rs::parse_arguments'],
     'oracles': {'*': 'c20_contexts', '#argument_not_infix': 'c20_known_infix', '#argument_as_alone': 'c20_known_flags'},
     'bounded': [('c20_contexts', 'the property itself, BOUNDED: 196 term texts that fit at least one context (atoms, variables, $_, integers, floats, signed numbers, quoted atoms, lists, complex terms, functions, infix arithmetic, punctuation atoms, escapes, inner white space, '
                                  'unbalanced brackets, a digit next to each punctuation character; eight of them also with white space around) written in nine contexts (only argument / second of three arguments of a complex term, argument of a built-in, of a query, only / second element '
